@@ -19,6 +19,7 @@ SRC = '''#include <PyImathFixedArray.h>
 #include <PyImathFixedArray2D.h>
 #include <PyImathFixedMatrix.h>
 #include <ImathVec.h>
+#include <new>
 using namespace PyImath;
 typedef StaticFixedArray<IMATH_NAMESPACE::Vec3<float>, float, 3> SFA3;
 extern "C" {
@@ -30,6 +31,7 @@ void w_get(int& o, const FixedArray<int>& a, const Py_ssize_t& i) { o = a.getite
 void w_slice(const FixedArray<int>& a, PyObject* const& idx, size_t& start, size_t& end, Py_ssize_t& step, size_t& len) { a.extract_slice_indices(idx, start, end, step, len); }
 void w_get2d(int& o, FixedArray2D<int>& a, const Py_ssize_t& i, const Py_ssize_t& j) { o = a.getitem(i, j); }
 void w_slice2d(const FixedArray2D<int>& a, PyObject* const& idx, const size_t& n, size_t& start, size_t& end, Py_ssize_t& step, size_t& len) { a.extract_slice_indices(idx, n, start, end, step, len); }
+void w_mask(FixedArray<int>* o, FixedArray<int>& a, const FixedArray<int>& m) { new (o) FixedArray<int>(a, m); }
 void w_setsc(FixedArray<int>& a, PyObject* const& idx, const int& v) { a.setitem_scalar(idx, v); }
 void w_setvec(FixedArray<int>& a, PyObject* const& idx, const FixedArray<int>& d) { a.setitem_vector(idx, d); }
 void w_getslice(FixedArray<int>& o, const FixedArray<int>& a, PyObject* const& idx) { o = a.getslice(idx); }
@@ -274,7 +276,125 @@ def main_idx(rep, ws):
             rep.ob(what, 'R19.idx', VIOLATED if bad else HOLDS, bad or 'iteration k < slicelength (k = 0, 1, ...) touches element (start + k*step) * stride, via raw_ptr_index on a masked reference', where)
         except (vg.Unsupported, P.NotPoly, KeyError, IndexError) as e:
             rep.ob(what, 'R19.idx', UNDECIDED, repr(e)[:300], where)
+    # ---- masked reference: the index table
+    n += 1
+    try:
+        modm = ws.irx(bc, opaque=('match_dimension', 'N5boost', 'raw_ptr_index', 'Znam', 'Znwm'), prefixes=('w_',), no_unroll=True)
+        bad = _mask_rule(vg.Interp(modm), {f['name']: f for f in modm['functions']}['w_mask'])
+        rep.ob('FixedArray(array, mask)', 'R19.idx', VIOLATED if bad else HOLDS, bad or 'the index table receives, in increasing order, exactly the positions i < len with mask[i] != 0 (store indices[j] = i and j++ under that one test; the count loop increments under the same test)', where)
+    except (vg.Unsupported, P.NotPoly, KeyError, IndexError, build.BuildError) as e:
+        rep.ob('FixedArray(array, mask)', 'R19.idx', UNDECIDED, repr(e)[:300], where)
     return n
+
+def _mask_rule(Im, fn):
+    r = Im.run_loop_body('w_mask'); S = r['summary']
+    ids = {}; blk = {}
+    for b in fn['blocks']:
+        for i in b['insts']: ids[i.get('id')] = i; blk[i.get('id')] = b['id']
+    def is_inc(vid, phi_id):
+        x = ids.get(vid, {}); io = x.get('ops', [])
+        return x.get('op') == 'add' and any(o.get('k') == 'v' and o.get('id') == phi_id for o in io) and any(o.get('k') == 'ci' and int(o['v']) == 1 for o in io)
+    def phi_info(pid):
+        """('step', init) for phi(init, phi+1); ('cond', init, block of the +1) for phi(init, phi(phi+1 | phi))"""
+        x = ids[pid]; ops = x['ops']
+        init = [o for o, _ in ops if o.get('k') == 'ci']; nxt = [o for o, _ in ops if o.get('k') == 'v']
+        if len(init) != 1 or len(nxt) != 1: return None
+        v = nxt[0]['id']
+        if is_inc(v, pid): return ('step', int(init[0]['v']))
+        y = ids.get(v, {})
+        if y.get('op') == 'add':
+            # count += (test) : add(phi, zext(icmp ne(load(... position ...), 0)))
+            io = y.get('ops', [])
+            zs = [ids.get(o.get('id'), {}) for o in io if o.get('k') == 'v' and o.get('id') != pid]
+            if any(o.get('k') == 'v' and o.get('id') == pid for o in io) and len(zs) == 1 and zs[0].get('op') == 'zext':
+                c = ids.get(zs[0]['ops'][0].get('id'), {})
+                if c.get('op') == 'icmp' and c.get('pred') == 'ne' and any(o.get('k') == 'ci' and int(o['v']) == 0 for o in c['ops']):
+                    return ('sum', int(init[0]['v']), c['id'])
+        if y.get('op') == 'phi':
+            inc = [(o, b_) for o, b_ in y['ops'] if o.get('k') == 'v' and is_inc(o['id'], pid)]
+            same = [(o, b_) for o, b_ in y['ops'] if o.get('k') == 'v' and o['id'] == pid]
+            if len(inc) == 1 and len(same) == 1 and len(y['ops']) == 2: return ('cond', int(init[0]['v']), inc[0][1])
+        return None
+    backs = [e for e in S.exits if e.kind == 'backedge']
+    if len(backs) != 2: return 'expected the counting loop and the filling loop, found %d loops' % len(backs)
+    guards = []
+    seen_store = False
+    for e in backs:
+        lvs = set()
+        for p in e.paths:
+            for c, v in p:
+                x = T._nodes[c]
+                if x.op == 'icmp' and x.args[0].op == 'loopvar': lvs.add(x.args[0])
+        stores = []
+        for base, m in e.mem.items():
+            a = m.arr
+            if a is None: continue
+            conds = []
+            while a.op == 'ite':
+                # the store sits on one arm of the mask test
+                if a.args[2].op == 'upd': conds.append((a.args[0], False)); a = a.args[2]
+                elif a.args[1].op == 'upd': conds.append((a.args[0], True)); a = a.args[1]
+                else: break
+            if a.op == 'upd': stores.append((a, conds))
+        bound = [T._nodes[c] for p in e.paths for c, v in p if T._nodes[c].op == 'icmp' and T._nodes[c].args[0].op == 'loopvar' and v]
+        if not bound: return 'a loop has no bound test'
+        iv = bound[0].args[0]
+        info_i = phi_info(iv.attr[1])
+        if info_i != ('step', 0): return 'the position counter does not run 0, 1, 2, ...'
+        # the other counter of the same header block
+        others = [i['id'] for b in fn['blocks'] if b['id'] == iv.attr[0] for i in b['insts'] if i.get('op') == 'phi' and i.get('t') == 'i64' and i['id'] != iv.attr[1]]
+        if len(others) != 1: return 'expected one running count beside the position counter'
+        info_j = phi_info(others[0])
+        if not info_j or info_j[0] not in ('cond', 'sum') or info_j[1] != 0: return 'the running count is not incremented by one under a single test'
+        if info_j[0] == 'sum':
+            # branch-free count: the summand is (mask[position] != 0); the loaded element must be addressed with the position counter
+            def depends(vid, target, depth=0):
+                if vid == target: return True
+                if depth > 12: return False
+                x = ids.get(vid, {})
+                ops_ = [(o[0] if isinstance(o, list) else o) for o in (x.get('ops') or [])]
+                return any(isinstance(o, dict) and o.get('k') == 'v' and depends(o.get('id'), target, depth + 1) for o in ops_)
+            cmpi = ids[info_j[2]]
+            if not any(o.get('k') == 'v' and depends(o['id'], iv.attr[1]) for o in cmpi['ops']): return 'the count does not test the mask element at the position counter'
+            if stores: return 'the filling loop has no conditional store'
+            guards.append('sum')
+            continue
+        # the test: mask[i] != 0 read at the position counter
+        tests = set()
+        for p in e.paths:
+            for c, v in p:
+                x = T._nodes[c]
+                if x.op == 'icmp' and x.attr == 'eq' and any(z.op == 'const' and z.attr[1] == 0 for z in x.args) and find(x, lambda y: y is iv) is not None: tests.add(x)
+        if len(tests) != 1: return 'the loop does not test exactly one mask element per position (%d tests)' % len(tests)
+        tst = tests.pop()
+        guards.append(T.subst(tst, {iv: T.inp('k#pos', 0, 8, 'i64')}))
+        if stores:
+            seen_store = True
+            if len(stores) != 1: return 'more than one store per iteration'
+            st, conds = stores[0]
+            jv = find(st.args[1], lambda y: y.op == 'loopvar')
+            if jv is None or jv.attr[1] != others[0]: return 'the table is not written at the running count'
+            ctx = P.Ctx()
+            kj = T.inp('k#cnt', 0, 8, 'i64')
+            if not ctx.requal(ctx.rat(T.subst(st.args[1], {jv: kj})), (P.pscale(P.patom(ctx.key(kj)), 8), P.pconst(1))): return 'the table is written at offset %s, expected 8 * count' % T.show(st.args[1], 3)[:60]
+            if st.args[2] is not iv: return 'the value written into the table is %s, expected the position' % T.show(st.args[2], 2)[:60]
+            if not conds or conds[-1][0] is not tst or conds[-1][1] is not False: return 'the table is not written exactly when mask[position] != 0'
+            if blk_of_store(fn, ids) is not None and info_j[2] != blk_of_store(fn, ids): return 'the running count is not incremented together with the store'
+    if not seen_store: return 'no store into the index table'
+    if 'sum' in guards:
+        if len([g for g in guards if g != 'sum']) != 1: return 'filling loop not recognised'
+        return None
+    if guards[0] is not guards[1]: return 'the counting loop and the filling loop test different things: %s / %s' % (T.show(guards[0], 3)[:60], T.show(guards[1], 3)[:60])
+    return None
+
+def blk_of_store(fn, ids):
+    """block of the 8-byte store of the filling loop (the only store of an i64 loop counter)"""
+    for b in fn['blocks']:
+        for i in b['insts']:
+            if i.get('op') == 'store':
+                ops = i.get('ops', [])
+                if ops and ops[0].get('k') == 'v' and ids.get(ops[0]['id'], {}).get('op') == 'phi' and ids[ops[0]['id']].get('t') == 'i64': return b['id']
+    return None
 
 def _loop_rule(Il, fns, nm, rhs):
     r = Il.run_loop_body(nm)
